@@ -11,7 +11,7 @@ PROPERTY = "C14"
 LEVEL = "exploration"
 RULE = (
     "Hypothesis lists of 1..4 one-axis index dimensions (1..5 categories, skewed, any common value incl. absent), "
-    "N in 0..20, built by an independent constructor. Oracle: by scanning rows, the multiset "
+    "N in 0..20 (two fifths of the cases 40..120 rows with lopsided categories), built by an independent constructor. Oracle: by scanning rows, the multiset "
     "{(c, rows(c)) : c in prod(uncommon_d u {-1}) minus {all -1}, rows(c) non-empty}; compared with what walk() "
     "delivers to one callback, to each of two callbacks, and with interactions(); row ids must be strictly "
     "increasing uint32 and no coordinate may equal its dimension's common value. Non-trivial = at least 3 "
@@ -22,7 +22,13 @@ ASSUMPTIONS = ["dimensions are one-axis indexes (the property's domain); common 
 
 
 def cases(tier):
-    return Q.cube_specs(max_nd=4, min_nd=1, max_n=20, tails=((),))
+    # mostly small cubes; one in four with up to 72 rows so that lopsided row-id sets (a dominant category
+    # against a rare one) reach whatever size-dependent strategy the intersection kernel uses
+    return st.one_of(Q.cube_specs(max_nd=4, min_nd=1, max_n=20, tails=((),)),
+                     Q.cube_specs(max_nd=4, min_nd=1, max_n=20, tails=((),)),
+                     Q.cube_specs(max_nd=4, min_nd=1, max_n=20, tails=((),)),
+                     Q.cube_specs(max_nd=3, min_nd=2, max_n=120, min_n=40, tails=((),)),
+                     Q.cube_specs(max_nd=2, min_nd=2, max_n=120, min_n=60, tails=((),)))
 
 
 def check(case, rec):
@@ -92,4 +98,4 @@ def check(case, rec):
         rec.nontrivial()
 
 
-SUBS = [Sub("walk", check, strategy=cases, examples={"quick": 5000, "thorough": 300000})]
+SUBS = [Sub("walk", check, strategy=cases, examples={"quick": 8000, "thorough": 300000})]
